@@ -1071,3 +1071,327 @@ Proof.
     { replace 0 with (0 * / (144 * (IZR d2 * IZR d2))) by ring. apply Rmult_lt_compat_r; lra. }
     lra.
 Qed.
+
+(* ================================================================== *)
+(* 9. the whole row                                                     *)
+(* ================================================================== *)
+Lemma shape_row_psd : forall swap a b c, PSD a b c ->
+  shape_row swap a b c = Some (shape_of_eig (eig_pair a b c) (orientation a b c)).
+Proof. intros. unfold shape_row. now rewrite code_eigvals_psd. Qed.
+
+Lemma shape_row_nan_iff : forall swap a b c, shape_row swap a b c = None <-> ~ PSD a b c.
+Proof.
+  intros. split.
+  - intros H P. rewrite shape_row_psd in H; auto. discriminate.
+  - intro H. unfold shape_row. now rewrite code_eigvals_not_psd.
+Qed.
+
+Lemma shape_row_order_free : forall a b c, shape_row true a b c = shape_row false a b c.
+Proof. intros. unfold shape_row. now rewrite code_eigvals_order_free. Qed.
+
+Lemma semi_transpose : forall a b c,
+  semimajor c b a = semimajor a b c /\ semiminor c b a = semiminor a b c.
+Proof. intros. unfold semimajor, semiminor. now rewrite eig_pair_transpose. Qed.
+
+(* transposition of the ellipse coefficients in the model's own (total) arithmetic: no
+   definedness hypothesis is needed *)
+Lemma ellipse_coeffs_transpose_all : forall a b c,
+  cxx c b a = cyy a b c /\ cyy c b a = cxx a b c /\ cxy c b a = cxy a b c.
+Proof.
+  intros a b c.
+  destruct (ellipse_coeffs_trig c b a) as (-> & -> & ->).
+  destruct (ellipse_coeffs_trig a b c) as (-> & -> & ->).
+  destruct (semi_transpose a b c) as [-> ->].
+  destruct (Req_dec a c) as [Eac | Nac]; [ destruct (Req_dec b 0) as [Eb | Nb] | ].
+  - subst. rewrite orientation_rad_isotropic.
+    assert (E : semimajor c 0 c = semiminor c 0 c).
+    { unfold semimajor, semiminor, semimajor_of, semiminor_of, eig_pair; cbn [fst snd].
+      f_equal. apply eig_equal_iff. auto. }
+    rewrite E. repeat split; ring.
+  - destruct (orientation_transpose_direction a b c (or_intror Nb)) as (s & Hs & -> & ->).
+    destruct Hs; subst s; repeat split; unfold Rdiv; ring.
+  - destruct (orientation_transpose_direction a b c (or_introl Nac)) as (s & Hs & -> & ->).
+    destruct Hs; subst s; repeat split; unfold Rdiv; ring.
+Qed.
+
+Definition swap_xy (s : shape) : shape := {|
+  s_eigvals := s_eigvals s; s_semimajor := s_semimajor s; s_semiminor := s_semiminor s;
+  s_fwhm := s_fwhm s; s_eccentricity := s_eccentricity s; s_elongation := s_elongation s;
+  s_ellipticity := s_ellipticity s;
+  s_cxx := s_cyy s; s_cyy := s_cxx s; s_cxy := s_cxy s |}.
+
+Lemma shape_row_transpose : forall s s' a b c,
+  shape_row s c b a = option_map swap_xy (shape_row s' a b c).
+Proof.
+  intros. unfold shape_row. rewrite (code_eigvals_transpose s s').
+  destruct (Rle_or_lt 0 (eig_minus a b c)) as [H|H].
+  - apply eig_minus_nonneg_psd in H. rewrite code_eigvals_psd; auto. cbn [option_map].
+    destruct (ellipse_coeffs_transpose_all a b c) as (E1 & E2 & E3).
+    unfold cxx, cyy, cxy in E1, E2, E3. rewrite eig_pair_transpose in E1, E2, E3.
+    unfold shape_of_eig, swap_xy; cbn. now rewrite E1, E2, E3.
+  - rewrite code_eigvals_not_psd; auto. intro P. apply eig_minus_nonneg in P. lra.
+Qed.
+
+(* ================================================================== *)
+(* 10. concrete instances (hypotheses are satisfiable, values are the expected ones)            *)
+(* ================================================================== *)
+Lemma sqrt_quarter : sqrt (1 / 4) = 1 / 2.
+Proof. replace (1 / 4) with ((1 / 2) * (1 / 2)) by field. apply sqrt_square. lra. Qed.
+
+(* [[1, 1/2], [1/2, 1]]: eigenvalues 3/2 and 1/2, major axis along the diagonal (45 degrees) *)
+Lemma example_diagonal :
+  PSD 1 (1 / 2) 1 /\ eig_plus 1 (1 / 2) 1 = 3 / 2 /\ eig_minus 1 (1 / 2) 1 = 1 / 2 /\
+  orientation 1 (1 / 2) 1 = 45 /\ 0 < cov_det 1 (1 / 2) 1 /\
+  eig_plus 1 (1 / 2) 1 <> eig_minus 1 (1 / 2) 1.
+Proof.
+  assert (G : half_gap 1 (1 / 2) 1 = 1 / 2).
+  { unfold half_gap. replace (((1 - 1) / 2) ^ 2 + (1 / 2) ^ 2) with (1 / 4) by field.
+    apply sqrt_quarter. }
+  assert (O : orientation 1 (1 / 2) 1 = 45).
+  { unfold orientation, orientation_rad. replace (1 - 1) with 0 by ring.
+    rewrite atan2_zero_x_pos_y; [ | lra ]. unfold rad2deg. field. apply PI_neq0. }
+  unfold PSD, cov_det, eig_plus, eig_minus. rewrite G. repeat split; try lra; auto.
+Qed.
+
+(* [[2, 0], [0, 1]]: axis-aligned, major axis along x; its transpose [[1,0],[0,2]] along y *)
+Lemma example_axis_aligned :
+  PSD 2 0 1 /\ eig_plus 2 0 1 = 2 /\ eig_minus 2 0 1 = 1 /\
+  orientation 2 0 1 = 0 /\ orientation 1 0 2 = 90.
+Proof.
+  assert (G : half_gap 2 0 1 = 1 / 2).
+  { unfold half_gap. replace (((2 - 1) / 2) ^ 2 + 0 ^ 2) with (1 / 4) by field.
+    apply sqrt_quarter. }
+  unfold PSD, cov_det, eig_plus, eig_minus, orientation. rewrite G.
+  rewrite !orientation_rad_axis_aligned.
+  destruct (Rlt_dec 2 1); [lra|]. destruct (Rlt_dec 1 2); [|lra].
+  unfold rad2deg. repeat split; try lra; field; apply PI_neq0.
+Qed.
+
+(* a single pixel: zero matrix, regularised once to [[1/12, 0], [0, 1/12]] *)
+Lemma example_single_pixel :
+  PSD 0 0 0 /\ regularise 1 0 0 0 = Some (0 + delta, 0, 0 + delta) /\
+  delta2 <= cov_det (0 + delta) 0 (0 + delta).
+Proof.
+  assert (P : PSD 0 0 0) by (unfold PSD, cov_det; repeat split; lra).
+  split; auto. split.
+  - rewrite regularise_psd; auto. destruct (Rlt_dec (cov_det 0 0 0) delta2) as [|N]; auto.
+    exfalso. apply N. unfold cov_det. pose proof delta2_pos. lra.
+  - now apply psd_one_step.
+Qed.
+
+(* an indefinite matrix (possible for ApertureStats with negative data): NaN eigenvalue pair *)
+Lemma example_indefinite : ~ PSD (-1) 0 (-1) /\ delta2 <= cov_det (-1) 0 (-1) /\
+  forall swap, shape_row swap (-1) 0 (-1) = None.
+Proof.
+  assert (N : ~ PSD (-1) 0 (-1)) by (unfold PSD; intros (H & _); lra).
+  repeat split; auto.
+  - unfold cov_det, delta2, delta. lra.
+  - intro. now apply shape_row_nan_iff.
+Qed.
+
+(* ================================================================== *)
+(* 11. the statements registered in C07R_Properties.v                  *)
+(* ================================================================== *)
+Lemma T_eigenvalues_are_roots : forall a b c,
+  char_poly a b c (eig_plus a b c) = 0 /\ char_poly a b c (eig_minus a b c) = 0 /\
+  eig_minus a b c <= eig_plus a b c /\
+  eig_plus a b c + eig_minus a b c = a + c /\
+  eig_plus a b c * eig_minus a b c = cov_det a b c /\
+  (PSD a b c -> 0 <= eig_minus a b c).
+Proof.
+  intros. repeat split; auto using eig_plus_root, eig_minus_root, eig_order, eig_sum, eig_prod,
+    eig_minus_nonneg.
+Qed.
+
+Lemma T_psd_iff : forall a b c, PSD a b c <-> 0 <= eig_minus a b c.
+Proof. intros. split; [apply eig_minus_nonneg | apply eig_minus_nonneg_psd]. Qed.
+
+Lemma T_code_eigvals : forall swap a b c,
+  (PSD a b c -> covariance_eigvals swap a b c = Some (eig_plus a b c, eig_minus a b c)) /\
+  (~ PSD a b c -> covariance_eigvals swap a b c = None).
+Proof. intros. split; [apply code_eigvals_psd | apply code_eigvals_not_psd]. Qed.
+
+Lemma T_semiaxes : forall a b c, PSD a b c ->
+  semimajor a b c ^ 2 = eig_plus a b c /\ semiminor a b c ^ 2 = eig_minus a b c /\
+  0 <= semiminor a b c <= semimajor a b c /\
+  (semiminor a b c = 0 <-> cov_det a b c = 0) /\
+  (semimajor a b c = 0 <-> (a = 0 /\ b = 0 /\ c = 0)).
+Proof.
+  intros a b c H. split; [now apply semimajor_sqr|]. split; [now apply semiminor_sqr|].
+  split; [apply semi_order|]. split; [now apply semiminor_zero_iff | now apply semimajor_zero_iff].
+Qed.
+
+Lemma T_eccentricity : forall a b c, PSD a b c -> 0 < eig_plus a b c ->
+  eccentricity a b c ^ 2 = 1 - eig_minus a b c / eig_plus a b c /\
+  0 <= eccentricity a b c <= 1 /\
+  (eccentricity a b c < 1 <-> 0 < cov_det a b c) /\
+  (eccentricity a b c = 1 <-> cov_det a b c = 0) /\
+  (eccentricity a b c = 0 <-> (a = c /\ b = 0)) /\
+  eccentricity a b c = sqrt (1 - (semiminor a b c / semimajor a b c) ^ 2).
+Proof.
+  intros a b c H Hp. split; [now apply ecc_sqr|]. split; [now apply ecc_range|].
+  split; [now apply ecc_lt_1_iff|]. split; [now apply ecc_one_iff|].
+  split; [now apply ecc_zero_iff | now apply ecc_axes].
+Qed.
+
+Lemma T_elongation_ellipticity : forall a b c, 0 < semiminor a b c ->
+  elongation a b c = semimajor a b c / semiminor a b c /\
+  1 <= elongation a b c /\
+  ellipticity a b c = 1 - 1 / elongation a b c /\
+  0 <= ellipticity a b c < 1 /\
+  (PSD a b c -> elongation a b c ^ 2 = eig_plus a b c / eig_minus a b c).
+Proof.
+  intros a b c Hs. pose proof (semi_order a b c) as O.
+  assert (HA : 0 < semimajor a b c) by lra.
+  split; [reflexivity|]. split; [now apply elongation_ge_1|].
+  split; [now apply ellipticity_elongation|].
+  split; [ split; [ apply ellipticity_range | apply ellipticity_lt_1 ]; auto | ].
+  intro H. now apply elongation_sqr.
+Qed.
+
+Lemma T_fwhm : forall a b c,
+  fwhm a b c =
+    2 * sqrt (2 * ln 2) * sqrt ((1 / 2) * (semimajor a b c ^ 2 + semiminor a b c ^ 2)) /\
+  (PSD a b c -> fwhm a b c = 2 * sqrt (ln 2 * (a + c)) /\ fwhm a b c ^ 2 = 4 * ln 2 * (a + c)).
+Proof.
+  intros. split; [apply fwhm_docstring|]. intro H. split; [now apply fwhm_trace | now apply fwhm_sqr].
+Qed.
+
+Lemma T_orientation : forall a b c,
+  let t := orientation_rad a b c in
+  - (PI / 2) < t <= PI / 2 /\
+  - 90 < orientation a b c <= 90 /\
+  deg2rad (orientation a b c) = t /\
+  eigvec a b c (eig_plus a b c) (cos t) (sin t) /\
+  eigvec a b c (eig_minus a b c) (- sin t) (cos t) /\
+  cos t * cos t + sin t * sin t = 1.
+Proof.
+  intros a b c t. split; [apply orientation_rad_range|]. split; [apply orientation_deg_range|].
+  split; [apply deg2rad_rad2deg|]. destruct (orientation_eigvec a b c) as [E1 E2].
+  split; auto. split; auto. pose proof (sqr_sin_cos t). lra.
+Qed.
+
+Lemma T_transpose_invariants : forall a b c,
+  eig_plus c b a = eig_plus a b c /\ eig_minus c b a = eig_minus a b c /\
+  semimajor c b a = semimajor a b c /\ semiminor c b a = semiminor a b c /\
+  eccentricity c b a = eccentricity a b c /\ elongation c b a = elongation a b c /\
+  ellipticity c b a = ellipticity a b c /\ fwhm c b a = fwhm a b c /\
+  (PSD c b a <-> PSD a b c).
+Proof.
+  intros a b c. pose proof (eig_pair_transpose a b c) as E.
+  assert (E' := E). unfold eig_pair in E'. inversion E' as [[E1 E2]].
+  unfold semimajor, semiminor, eccentricity, elongation, ellipticity, fwhm. rewrite E.
+  do 8 (split; [auto|]). symmetry. apply psd_transpose.
+Qed.
+
+Lemma T_transpose_orientation : forall a b c,
+  ((a <> c \/ b <> 0) ->
+     orientation c b a = 90 - orientation a b c - (if Rlt_dec b 0 then 180 else 0) /\
+     orientation_rad c b a = PI / 2 - orientation_rad a b c - (if Rlt_dec b 0 then PI else 0) /\
+     exists s, (s = 1 \/ s = -1) /\
+       cos (orientation_rad c b a) = s * sin (orientation_rad a b c) /\
+       sin (orientation_rad c b a) = s * cos (orientation_rad a b c)) /\
+  ((a = c /\ b = 0) -> orientation c b a = 0 /\ orientation a b c = 0).
+Proof.
+  intros a b c. split.
+  - intro H. split; [now apply orientation_transpose|]. split; [now apply orientation_rad_transpose|].
+    now apply orientation_transpose_direction.
+  - intros [-> ->]. unfold orientation. rewrite orientation_rad_isotropic. unfold rad2deg.
+    split; field; apply PI_neq0.
+Qed.
+
+Lemma T_regularisation_compat : forall a b c d,
+  eig_plus (a + d) b (c + d) = eig_plus a b c + d /\
+  eig_minus (a + d) b (c + d) = eig_minus a b c + d /\
+  orientation (a + d) b (c + d) = orientation a b c /\
+  cov_det (a + d) b (c + d) = cov_det a b c + d * (a + c) + d * d.
+Proof.
+  intros. repeat split; auto using eig_plus_shift, eig_minus_shift, orientation_shift, cov_det_shift.
+Qed.
+
+Lemma T_regularise_psd : forall fuel a b c, PSD a b c ->
+  regularise (S fuel) a b c =
+    Some (if Rlt_dec (cov_det a b c) delta2 then (a + delta, b, c + delta) else (a, b, c)) /\
+  regularise_stats (S fuel) a b c = regularise (S fuel) a b c /\
+  forall a' b' c', regularise (S fuel) a b c = Some (a', b', c') ->
+    PSD a' b' c' /\ delta2 <= cov_det a' b' c' /\
+    0 < eig_minus a' b' c' /\ 0 < semiminor a' b' c' /\ 0 < semimajor a' b' c' /\
+    eccentricity_defined a' b' c' /\ elongation_defined a' b' c' /\
+    ellipticity_defined a' b' c' /\ ellipse_coeffs_defined a' b' c'.
+Proof.
+  intros fuel a b c H. split; [now apply regularise_psd|].
+  split; [now apply regularise_stats_psd|].
+  intros a' b' c' E. rewrite regularise_psd in E; auto.
+  assert (P' : PSD a' b' c' /\ delta2 <= cov_det a' b' c').
+  { destruct (Rlt_dec (cov_det a b c) delta2) as [L|L]; inversion E; subst.
+    - split; [ apply psd_shift; auto; pose proof delta_pos; lra | now apply psd_one_step ].
+    - split; auto. lra. }
+  destruct P' as [P' D']. split; auto. split; auto.
+  apply regularised_defined; auto. now destruct P'.
+Qed.
+
+Lemma T_shape_row : forall swap a b c,
+  (PSD a b c ->
+     shape_row swap a b c = Some (shape_of_eig (eig_plus a b c, eig_minus a b c) (orientation a b c))) /\
+  (shape_row swap a b c = None <-> ~ PSD a b c).
+Proof. intros. split; [ apply shape_row_psd | apply shape_row_nan_iff ]. Qed.
+
+Lemma T_rescaling : forall k a b c, 0 < k ->
+  eig_plus (k * a) (k * b) (k * c) = k * eig_plus a b c /\
+  eig_minus (k * a) (k * b) (k * c) = k * eig_minus a b c /\
+  orientation (k * a) (k * b) (k * c) = orientation a b c.
+Proof.
+  intros k a b c Hk. split; [ | split ].
+  - apply eig_plus_scale. lra.
+  - apply eig_minus_scale. lra.
+  - now apply orientation_scale.
+Qed.
+
+(* ================================================================== *)
+(* 12. end to end: central-moment matrix -> 1/12 loop -> row of shape parameters               *)
+(* ================================================================== *)
+Lemma T_end_to_end : forall fuel swap a b c, PSD a b c ->
+  exists a' c' s,
+    regularise (S fuel) a b c = Some (a', b, c') /\
+    (a' = a /\ c' = c \/ a' = a + delta /\ c' = c + delta) /\
+    shape_row swap a' b c' = Some s /\
+    let lp := eig_plus a' b c' in let lm := eig_minus a' b c' in let d := cov_det a' b c' in
+    delta2 <= d /\ 0 < lm <= lp /\
+    s_eigvals s = (lp, lm) /\
+    s_semimajor s ^ 2 = lp /\ s_semiminor s ^ 2 = lm /\ 0 < s_semiminor s <= s_semimajor s /\
+    s_fwhm s ^ 2 = 4 * ln 2 * (a' + c') /\
+    s_eccentricity s ^ 2 = 1 - lm / lp /\ 0 <= s_eccentricity s < 1 /\
+    s_elongation s = s_semimajor s / s_semiminor s /\ 1 <= s_elongation s /\
+    s_ellipticity s = 1 - 1 / s_elongation s /\ 0 <= s_ellipticity s < 1 /\
+    s_cxx s = c' / d /\ s_cyy s = a' / d /\ s_cxy s = - 2 * b / d.
+Proof.
+  intros fuel swap a b c H.
+  destruct (T_regularise_psd fuel a b c H) as (E & _ & K).
+  set (r := if Rlt_dec (cov_det a b c) delta2 then (a + delta, b, c + delta) else (a, b, c)) in E.
+  assert (R : exists a' c', r = (a', b, c') /\ (a' = a /\ c' = c \/ a' = a + delta /\ c' = c + delta)).
+  { unfold r. destruct (Rlt_dec (cov_det a b c) delta2).
+    - exists (a + delta), (c + delta). auto.
+    - exists a, c. auto. }
+  destruct R as (a' & c' & Er & Hcase). rewrite Er in E.
+  destruct (K a' b c' E) as (P' & D' & Hm & HB & HA & _).
+  exists a', c', (shape_of_eig (eig_pair a' b c') (orientation a' b c')).
+  split; auto. split; auto. split; [ now apply shape_row_psd | ].
+  pose proof delta2_pos as D2.
+  assert (Hd : 0 < cov_det a' b c') by lra.
+  assert (Ha : 0 <= a') by now destruct P'.
+  assert (Hp : 0 < eig_plus a' b c') by (pose proof (eig_order a' b c'); lra).
+  destruct (T_eccentricity a' b c' P' Hp) as (Q1 & Q2 & Q3 & _).
+  destruct (T_elongation_ellipticity a' b c' HB) as (L1 & L2 & L3 & L4 & _).
+  destruct (ellipse_coeffs_inverse a' b c' Ha Hd) as (C1 & C2 & C3).
+  cbn [shape_of_eig s_eigvals s_semimajor s_semiminor s_fwhm s_eccentricity s_elongation
+       s_ellipticity s_cxx s_cyy s_cxy].
+  fold (semimajor a' b c') (semiminor a' b c') (fwhm a' b c') (eccentricity a' b c')
+       (elongation a' b c') (ellipticity a' b c') (cxx a' b c') (cyy a' b c') (cxy a' b c').
+  split; auto. split; [ split; [ auto | apply eig_order ] | ].
+  split; [ reflexivity | ].
+  split; [ now apply semimajor_sqr | ]. split; [ now apply semiminor_sqr | ].
+  split; [ split; [ auto | apply semi_order ] | ].
+  split; [ now apply fwhm_sqr | ].
+  split; auto. split; [ split; [ apply Q2 | now apply Q3 ] | ].
+  split; [ exact L1 | ]. split; [ exact L2 | ]. split; [ exact L3 | ]. split; [ exact L4 | ]. auto.
+Qed.
